@@ -2,7 +2,12 @@
   A: the REAL RAM program souffle produced for a generated program (hook H3 dump) is executed by spec/Ram.tla on every
      EDB case; its outputs must equal the model computed by spec/Datalog.tla and the machine invariants must hold;
   T: the REAL interpreter's statement trace (hook H5) on sampled EDBs is validated step by step against spec/Ram.tla
-     (spec/RamTrace.tla): same statement ids, same relation sizes after every statement."""
+     (spec/RamTrace.tla): same statement ids, same relation sizes after every statement.
+Records and ADTs: EDB facts and expected models are handed to the spec in the value form of spec/Datalog.tla
+(["nil"], ["rec", v..], ["adt", branch, v..] -> TLA+ tuples) exactly as TLC printed them; spec/Ram.tla packs them into its
+record table when an input IO executes and decodes the output relations through the table, using the type table
+RamProg.types that vf/ramjson.py copies from the real IO statements' `types` directive (so every writer of RamData gets it
+with RamProg)."""
 import json, os, shutil, concurrent.futures as cf
 from . import render, build, tlc, ramjson
 from .common import SPEC, run, write_data, NCPU
@@ -49,7 +54,7 @@ def edb_value(case):
     return {r: ts for r, ts in case["edb"].items()}
 
 def check(P, cases, wd, label, res, pid, args=("-j1",), env=None, which="final", n_traces=4, rng=None,
-          invariants=("FinalIsModel", "LoopHead", "TempsCleared"), workers=2, tag="ram", sn=None, return_ram=False, orders=([],)):
+          invariants=("FinalIsModel", "LoopHead", "TempsCleared", "RecordsOK"), workers=2, tag="ram", sn=None, return_ram=False, orders=([],)):
     """Returns dict(status=..., states=...).  Violations are appended to res.
     sn: optional function (case, RamProg) -> RamSN record (C09 expectations)"""
     pdir = os.path.join(wd, label)
